@@ -1,6 +1,7 @@
 (* On D12 the comparison made by rowLess IS the value order; hence any output of a contract-abiding sort is in
    value order. *)
 From Coq Require Import List ZArith NArith Bool Permutation Sorted Lia.
+From Coq.Floats Require Import SpecFloat.
 From Coq.Strings Require Import Byte.
 Import ListNotations.
 From BWTable Require Import Cells Fmt StrOrder FmtProofs Sort SortProofs SortSpec.
@@ -12,93 +13,161 @@ Lemma fkind_kind : forall a b, fkind_eqb (fine_kind a) (fine_kind b) = true ->
   kind_eqb (cell_kind a) (cell_kind b) = true.
 Proof. intros [] [] H; cbn in *; try discriminate; reflexivity. Qed.
 
-Lemma same_fine_same_kinds : forall c a b, same_fine_kinds c a b = true -> same_kinds c a b = true.
-Proof.
-  intros c a b H. unfold same_fine_kinds, same_kinds in *. rewrite forallb_forall in *.
-  intros k Hk. specialize (H k Hk).
-  destruct (rget a (k_b k)); [|discriminate]. destruct (rget b (k_b k)); [|discriminate].
-  apply fkind_kind. exact H.
-Qed.
+Section Generic.
+  Variable tm_ok : tim -> bool.
+  Variable tm_pair : tim -> tim -> bool.
+  Variable fl_ok : lit -> bool.
+  (* what the proofs need to know about the accepted anchors and float64 literals *)
+  Hypothesis tm_law : forall a b, tm_ok a = true -> tm_ok b = true -> tm_pair a b = true ->
+    str_compare (trim_space (t_str a)) (trim_space (t_str b)) = Z.compare (t_ns a) (t_ns b).
+  Hypothesis fl_law : forall a b x y, fl_ok a = true -> fl_ok b = true -> l_val a = VFloat x -> l_val b = VFloat y ->
+    str_compare (trim_space (l_cmp a)) (trim_space (l_cmp b)) = match SFcompare x y with Some o => o | None => Eq end.
 
-Lemma d12_homogeneous : forall c rows, d12 c rows = true -> homogeneous c rows = true.
-Proof.
-  intros c rows H. unfold d12, homogeneous in *. rewrite forallb_forall in *.
-  intros a Ha. specialize (H a Ha). apply andb_prop in H. destruct H as [_ H].
-  rewrite forallb_forall in *. intros b Hb. apply same_fine_same_kinds. apply H. exact Hb.
-Qed.
+  Let d12_cell' := d12_cell_gen tm_ok fl_ok.
+  Let same_fine' := same_fine_kinds_gen tm_pair.
+  Let d12_row' := d12_row_gen tm_ok fl_ok.
+  Let d12' := d12_gen tm_ok tm_pair fl_ok.
 
-(* the heart: on D12 cells of the same fine kind the compared strings order like the values *)
-Lemma cell_key_cmp_spec : forall a b, d12_cell a = true -> d12_cell b = true ->
-  fkind_eqb (fine_kind a) (fine_kind b) = true -> cell_key_cmp a b = spec_cmp a b.
-Proof.
-  intros a b Da Db K. unfold cell_key_cmp.
-  destruct a as [|sa|sa|sa|la|ta]; destruct b as [|sb|sb|sb|lb|tb]; cbn in K; try discriminate;
-    cbn [d12_cell] in Da, Db; try discriminate.
-  - reflexivity.
-  - cbn [skey_of spec_cmp cell_string]. rewrite (trim_ok_eq _ Da), (trim_ok_eq _ Db). reflexivity.
-  - cbn [skey_of spec_cmp cell_string]. rewrite (trim_ok_eq _ Da), (trim_ok_eq _ Db). reflexivity.
-  - cbn [skey_of spec_cmp cell_string]. rewrite (trim_ok_eq _ Da), (trim_ok_eq _ Db). reflexivity.
-  - unfold lit_ty in K. cbn [skey_of spec_cmp].
-    destruct (l_val la) as [ba|za|fa|xa|xa] eqn:Va; destruct (l_val lb) as [bb|zb|fb|xb|xb] eqn:Vb;
-      cbn in K; try discriminate.
-    + apply andb_prop in Da, Db. destruct Da as [Ea Ta], Db as [Eb Tb].
-      rewrite (trim_ok_eq _ Ta), (trim_ok_eq _ Tb).
-      apply str_eqb_eq in Ea, Eb. rewrite Ea, Eb. reflexivity.
-    + apply andb_prop in Da, Db. destruct Da as [Ra Ea], Db as [Rb Eb].
-      apply andb_prop in Ra, Rb. destruct Ra as [Ra1 Ra2], Rb as [Rb1 Rb2].
-      apply str_eqb_eq in Ea, Eb. rewrite Ea, Eb.
-      apply Z.leb_le in Ra1, Rb1. apply Z.ltb_lt in Ra2, Rb2.
-      assert (T : forall v, trim_space (int_cmp_string v) = int_cmp_string v).
-      { intro v. apply trim_int_cmp_string. }
-      rewrite !T. apply int_cmp_string_compare; lia.
-    + apply andb_prop in Da, Db. destruct Da as [Aa Ea], Db as [Ab Eb].
-      apply str_eqb_eq in Ea, Eb. rewrite Ea, Eb.
-      rewrite !trim_text_string. apply text_string_compare; assumption.
-    + apply andb_prop in Da, Db. destruct Da as [Ea Ta], Db as [Eb Tb].
-      rewrite (trim_ok_eq _ Ta), (trim_ok_eq _ Tb).
-      apply str_eqb_eq in Ea, Eb. rewrite Ea, Eb. reflexivity.
-Qed.
+  Lemma same_fine_same_kinds : forall c a b, same_fine' c a b = true -> same_kinds c a b = true.
+  Proof.
+    intros c a b H. unfold same_fine', same_fine_kinds_gen, same_kinds in *. rewrite forallb_forall in *.
+    intros k Hk. specialize (H k Hk).
+    destruct (rget a (k_b k)); [|discriminate]. destruct (rget b (k_b k)); [|discriminate].
+    apply andb_prop in H. destruct H as [H _]. apply fkind_kind. exact H.
+  Qed.
 
-Lemma key_cmp_spec : forall c a b, d12_row c a = true -> d12_row c b = true -> same_fine_kinds c a b = true ->
-  key_cmp c a b = spec_row_cmp c a b.
-Proof.
-  induction c as [|k rest IH]; intros a b Da Db K; cbn in *; [reflexivity|].
-  apply andb_prop in Da, Db, K. destruct Da as [Da1 Da2], Db as [Db1 Db2], K as [K1 K2].
-  rewrite (IH a b Da2 Db2 K2).
-  destruct (rget a (k_b k)) as [x|]; [|discriminate]. destruct (rget b (k_b k)) as [y|]; [|discriminate].
-  cbn. rewrite (cell_key_cmp_spec x y Da1 Db1 K1). reflexivity.
-Qed.
+  Lemma d12_homogeneous : forall c rows, d12' c rows = true -> homogeneous c rows = true.
+  Proof.
+    intros c rows H. unfold d12', d12_gen, homogeneous in *. rewrite forallb_forall in *.
+    intros a Ha. specialize (H a Ha). apply andb_prop in H. destruct H as [_ H].
+    rewrite forallb_forall in *. intros b Hb. apply same_fine_same_kinds. apply H. exact Hb.
+  Qed.
 
-Lemma d12_facts : forall c rows a b, d12 c rows = true -> In a rows -> In b rows ->
-  d12_row c a = true /\ d12_row c b = true /\ same_fine_kinds c a b = true.
-Proof.
-  intros c rows a b H Ha Hb. unfold d12 in H. rewrite forallb_forall in H.
-  pose proof (H a Ha) as Xa. pose proof (H b Hb) as Xb.
-  apply andb_prop in Xa, Xb. destruct Xa as [Xa1 Xa2], Xb as [Xb1 _].
-  rewrite forallb_forall in Xa2. auto.
-Qed.
+  (* the heart: on D12 cells of the same fine kind the compared strings order like the values *)
+  Lemma cell_key_cmp_spec : forall a b, d12_cell' a = true -> d12_cell' b = true ->
+    fkind_eqb (fine_kind a) (fine_kind b) = true -> pair_ok_gen tm_pair a b = true -> cell_key_cmp a b = spec_cmp a b.
+  Proof.
+    intros a b Da Db K P. unfold cell_key_cmp. unfold d12_cell' in *.
+    destruct a as [|sa|sa|sa|la|ta]; destruct b as [|sb|sb|sb|lb|tb]; cbn in K; try discriminate;
+      cbn [d12_cell_gen] in Da, Db; try discriminate.
+    - reflexivity.
+    - cbn [skey_of spec_cmp cell_string]. rewrite (trim_ok_eq _ Da), (trim_ok_eq _ Db). reflexivity.
+    - cbn [skey_of spec_cmp cell_string]. rewrite (trim_ok_eq _ Da), (trim_ok_eq _ Db). reflexivity.
+    - cbn [skey_of spec_cmp cell_string]. rewrite (trim_ok_eq _ Da), (trim_ok_eq _ Db). reflexivity.
+    - unfold lit_ty in K. cbn [skey_of spec_cmp].
+      destruct (l_val la) as [ba|za|fa|xa|xa] eqn:Va; destruct (l_val lb) as [bb|zb|fb|xb|xb] eqn:Vb;
+        cbn in K; try discriminate.
+      + apply andb_prop in Da, Db. destruct Da as [Ea Ta], Db as [Eb Tb].
+        rewrite (trim_ok_eq _ Ta), (trim_ok_eq _ Tb).
+        apply str_eqb_eq in Ea, Eb. rewrite Ea, Eb. reflexivity.
+      + apply andb_prop in Da, Db. destruct Da as [Ra Ea], Db as [Rb Eb].
+        apply andb_prop in Ra, Rb. destruct Ra as [Ra1 Ra2], Rb as [Rb1 Rb2].
+        apply str_eqb_eq in Ea, Eb. rewrite Ea, Eb.
+        apply Z.leb_le in Ra1, Rb1. apply Z.ltb_lt in Ra2, Rb2.
+        rewrite !trim_int_cmp_string. apply int_cmp_string_compare; lia.
+      + apply (fl_law la lb fa fb Da Db Va Vb).
+      + apply andb_prop in Da, Db. destruct Da as [Aa Ea], Db as [Ab Eb].
+        apply str_eqb_eq in Ea, Eb. rewrite Ea, Eb.
+        rewrite !trim_text_string. apply text_string_compare; assumption.
+      + apply andb_prop in Da, Db. destruct Da as [Ea Ta], Db as [Eb Tb].
+        rewrite (trim_ok_eq _ Ta), (trim_ok_eq _ Tb).
+        apply str_eqb_eq in Ea, Eb. rewrite Ea, Eb. reflexivity.
+    - cbn [skey_of spec_cmp]. cbn [pair_ok_gen] in P. apply tm_law; assumption.
+  Qed.
 
-Lemma spec_row_cmp_comparator_on_d12 : forall c rows a b, d12 c rows = true -> In a rows -> In b rows ->
-  spec_row_cmp c b a = CompOpp (spec_row_cmp c a b).
-Proof.
-  intros c rows a b H Ha Hb.
-  destruct (d12_facts c rows a b H Ha Hb) as (Da & Db & K).
-  destruct (d12_facts c rows b a H Hb Ha) as (_ & _ & K').
-  rewrite <- (key_cmp_spec c a b Da Db K), <- (key_cmp_spec c b a Db Da K').
-  apply (cmp_sym _ (key_cmp_comparator c)).
-Qed.
+  Lemma key_cmp_spec : forall c a b, d12_row' c a = true -> d12_row' c b = true -> same_fine' c a b = true ->
+    key_cmp c a b = spec_row_cmp c a b.
+  Proof.
+    induction c as [|k rest IH]; intros a b Da Db K; [reflexivity|].
+    unfold d12_row', same_fine' in *. cbn [d12_row_gen same_fine_kinds_gen forallb] in Da, Db, K.
+    apply andb_prop in Da, Db, K. destruct Da as [Da1 Da2], Db as [Db1 Db2], K as [K1 K2].
+    cbn [key_cmp spec_row_cmp]. rewrite (IH a b Da2 Db2 K2).
+    destruct (rget a (k_b k)) as [x|]; [|discriminate]. destruct (rget b (k_b k)) as [y|]; [|discriminate].
+    apply andb_prop in K1. destruct K1 as [K1 P1].
+    cbn [opt_cell_cmp opt_spec_cmp]. rewrite (cell_key_cmp_spec x y Da1 Db1 K1 P1). reflexivity.
+  Qed.
 
-(* MAIN: a D12 table, any permutation of it without inversions w.r.t. rowLess, is sorted by VALUE *)
-Theorem d12_no_inversion_spec_sorted : forall c rows out,
-  d12 c rows = true -> Permutation rows out -> no_inversion (row_lt c) out -> spec_sorted c out.
-Proof.
-  intros c rows out D P N. unfold spec_sorted, no_inversion in *.
-  eapply ss_transfer; [exact N|]. cbn. intros a b Ha Hb Hba.
-  assert (Ia : In a rows) by (eapply Permutation_in; [apply Permutation_sym; exact P | exact Ha]).
-  assert (Ib : In b rows) by (eapply Permutation_in; [apply Permutation_sym; exact P | exact Hb]).
-  destruct (d12_facts c rows b a D Ib Ia) as (Db & Da & K).
-  rewrite (row_lt_key_cmp c b a (same_fine_same_kinds _ _ _ K)) in Hba.
-  unfold lt_of in Hba. rewrite (key_cmp_spec c b a Db Da K) in Hba.
-  rewrite (spec_row_cmp_comparator_on_d12 c rows b a D Ib Ia).
-  destruct (spec_row_cmp c b a); cbn; congruence.
-Qed.
+  Lemma d12_facts : forall c rows a b, d12' c rows = true -> In a rows -> In b rows ->
+    d12_row' c a = true /\ d12_row' c b = true /\ same_fine' c a b = true.
+  Proof.
+    intros c rows a b H Ha Hb. unfold d12', d12_gen in H. rewrite forallb_forall in H.
+    pose proof (H a Ha) as Xa. pose proof (H b Hb) as Xb.
+    apply andb_prop in Xa, Xb. destruct Xa as [Xa1 Xa2], Xb as [Xb1 _].
+    rewrite forallb_forall in Xa2. auto.
+  Qed.
+
+  Lemma spec_row_cmp_comparator_on_d12 : forall c rows a b, d12' c rows = true -> In a rows -> In b rows ->
+    spec_row_cmp c b a = CompOpp (spec_row_cmp c a b).
+  Proof.
+    intros c rows a b H Ha Hb.
+    destruct (d12_facts c rows a b H Ha Hb) as (Da & Db & K).
+    destruct (d12_facts c rows b a H Hb Ha) as (_ & _ & K').
+    rewrite <- (key_cmp_spec c a b Da Db K), <- (key_cmp_spec c b a Db Da K').
+    apply (cmp_sym _ (key_cmp_comparator c)).
+  Qed.
+
+  (* MAIN: a D12 table, any permutation of it without inversions w.r.t. rowLess, is sorted by VALUE *)
+  Theorem d12_no_inversion_spec_sorted : forall c rows out,
+    d12' c rows = true -> Permutation rows out -> no_inversion (row_lt c) out -> spec_sorted c out.
+  Proof.
+    intros c rows out D P N. unfold spec_sorted, no_inversion in *.
+    eapply ss_transfer; [exact N|]. cbn. intros a b Ha Hb Hba.
+    assert (Ia : In a rows) by (eapply Permutation_in; [apply Permutation_sym; exact P | exact Ha]).
+    assert (Ib : In b rows) by (eapply Permutation_in; [apply Permutation_sym; exact P | exact Hb]).
+    destruct (d12_facts c rows b a D Ib Ia) as (Db & Da & K).
+    rewrite (row_lt_key_cmp c b a (same_fine_same_kinds _ _ _ K)) in Hba.
+    unfold lt_of in Hba. rewrite (key_cmp_spec c b a Db Da K) in Hba.
+    rewrite (spec_row_cmp_comparator_on_d12 c rows b a D Ib Ia).
+    destruct (spec_row_cmp c b a); cbn; congruence.
+  Qed.
+
+  Lemma d12_has_keys : forall ks rows, d12' ks rows = true -> forallb (has_keys ks) rows = true.
+  Proof.
+    intros ks rows D. unfold d12', d12_gen in D. rewrite forallb_forall in *. intros r Hr.
+    specialize (D r Hr). apply andb_prop in D. destruct D as [D _].
+    unfold d12_row_gen in D. unfold has_keys. rewrite forallb_forall in *. intros k Hk. specialize (D k Hk).
+    destruct (rget r (k_b k)); [reflexivity | discriminate].
+  Qed.
+End Generic.
+
+(* ---- the laws from the two oracle formats ----------------------------------------------------------------------- *)
+Section OracleLaws.
+  Variable fmt_time : Z -> Z -> str.
+  Variable fmt_float : spec_float -> str.
+  (* RFC3339Nano: within one zone, renderings of equal length (= same number of fraction digits) order like the
+     instants; no outer white space *)
+  Hypothesis fmt_time_order : forall off n1 n2, in_int64 n1 = true -> in_int64 n2 = true ->
+    length (fmt_time n1 off) = length (fmt_time n2 off) ->
+    str_compare (fmt_time n1 off) (fmt_time n2 off) = Z.compare n1 n2.
+  Hypothesis fmt_time_trim : forall n off, trim_space (fmt_time n off) = fmt_time n off.
+  (* %032f: on the domain (finite, 0 <= f < 10^25, at most six decimals) the renderings order like the values *)
+  Hypothesis fmt_float_order : forall x y, sf_in_domain x = true -> sf_in_domain y = true ->
+    str_compare (fmt_float x) (fmt_float y) = match SFcompare x y with Some o => o | None => Eq end.
+  Hypothesis fmt_float_trim : forall x, trim_space (fmt_float x) = fmt_float x.
+
+  Lemma tm_law_o : forall a b, tm_ok_o fmt_time a = true -> tm_ok_o fmt_time b = true -> tm_pair_o a b = true ->
+    str_compare (trim_space (t_str a)) (trim_space (t_str b)) = Z.compare (t_ns a) (t_ns b).
+  Proof.
+    intros a b Ha Hb P. unfold tm_ok_o in *. apply andb_prop in Ha, Hb. destruct Ha as [Ra Ha], Hb as [Rb Hb].
+    apply str_eqb_eq in Ha, Hb.
+    unfold tm_pair_o in P. apply andb_prop in P. destruct P as [Po Pl]. apply Z.eqb_eq in Po. apply Nat.eqb_eq in Pl.
+    rewrite Ha, Hb in Pl |- *. rewrite <- Po in Pl |- *. rewrite !fmt_time_trim. apply fmt_time_order; assumption.
+  Qed.
+
+  Lemma fl_law_o : forall a b x y, fl_ok_o fmt_float a = true -> fl_ok_o fmt_float b = true ->
+    l_val a = VFloat x -> l_val b = VFloat y ->
+    str_compare (trim_space (l_cmp a)) (trim_space (l_cmp b)) = match SFcompare x y with Some o => o | None => Eq end.
+  Proof.
+    intros a b x y Ha Hb Va Vb. unfold fl_ok_o in *. rewrite Va in Ha. rewrite Vb in Hb.
+    apply andb_prop in Ha, Hb. destruct Ha as [Da Ea], Hb as [Db Eb]. apply str_eqb_eq in Ea, Eb.
+    rewrite Ea, Eb, !fmt_float_trim. apply fmt_float_order; assumption.
+  Qed.
+End OracleLaws.
+
+(* the oracle-free instance (names used by the rest of the development) *)
+Lemma no_tim_law : forall a b, no_tim a = true -> no_tim b = true -> any_tim_pair a b = true ->
+  str_compare (trim_space (t_str a)) (trim_space (t_str b)) = Z.compare (t_ns a) (t_ns b).
+Proof. intros a b H. discriminate. Qed.
+Lemma no_lit_law : forall a b x y, no_lit a = true -> no_lit b = true -> l_val a = VFloat x -> l_val b = VFloat y ->
+  str_compare (trim_space (l_cmp a)) (trim_space (l_cmp b)) = match SFcompare x y with Some o => o | None => Eq end.
+Proof. intros a b x y H. discriminate. Qed.
